@@ -23,9 +23,10 @@ struct Xfer {
 	std::string path;           // path part of the URL
 	// transport script captured at connect time
 	bool will_refuse = false, will_blackhole = false, dnsfail = false;
-	int64_t started_ms = 0, ready_at = 0;
+	int64_t started_ms = 0, ready_at = 0, added_ms = 0;
 	// request
 	std::string req_body;       // bytes read from CURLOPT_POSTFIELDS at send time
+	std::string body_at_add;    // what the POST buffer held when the transfer was created (bookkeeping only)
 	bool is_post = false;
 	uint64_t added_seq = 0, sent_seq = 0, done_seq = 0, reported_seq = 0;
 	// response as produced by the server model
